@@ -158,10 +158,11 @@ impl ServerState {
           &mut self.heap,
           &mut error_set,
         );
+        // The signature mentions the module's own reference, so it is rebuilt under the new name.
+        self.global_cx.remove(&old_mod_ref);
+        self.global_cx.insert(new_mod_ref, build_module_signature(new_mod_ref, &parsed));
         self.string_sources.insert(new_mod_ref, source);
         self.parsed_modules.insert(new_mod_ref, parsed);
-        let mod_cx = self.global_cx.remove(&old_mod_ref).unwrap();
-        self.global_cx.insert(new_mod_ref, mod_cx);
       }
       self.checked_modules.remove(&old_mod_ref);
     }
